@@ -13,7 +13,7 @@ from .rtcommon import HOWS, RT_ASSUMPTIONS, make_replay
 
 NAMES = ["ExecOnce", "ExecArgsExact", "ExecOutcomeIdentity", "ExecRightFlavour", "ExecNotAFailureObserved", "ExecReturnsObserved", "AtMostOnce"]
 replay = make_replay(NAMES)
-EXEC_HOWS = ["none", "val:0", "val:0.0", "val:False", "val:''", "val:[]", "val:()", "val:x", "val:obj", "exc:LookupError", "exc:UserExc", "exc:UserExcSub", "exc:RuntimeError", "exc:ValueError"]
+EXEC_HOWS = ["none", "val:awaitable", "val:0", "val:0.0", "val:False", "val:''", "val:[]", "val:()", "val:x", "val:obj", "exc:LookupError", "exc:UserExc", "exc:UserExcSub", "exc:RuntimeError", "exc:ValueError"]
 
 
 def shapes(thorough, rnd):
